@@ -197,7 +197,15 @@ def region_nfa(body, cfg, entry, exits, classify_stmt, classify_term, classify_e
             l = classify_edge(bi, t, s)
             if l == "<cut>":
                 continue
-            nfa.add(cur, l, ("B", s), t["span"]["at"])
+            if isinstance(l, (list, tuple)):
+                c2 = cur
+                for j, lab in enumerate(l[:-1]):
+                    nx = ("E", bi, s, j)
+                    nfa.add(c2, lab, nx, t["span"]["at"])
+                    c2 = nx
+                nfa.add(c2, l[-1] if l else None, ("B", s), t["span"]["at"])
+            else:
+                nfa.add(cur, l, ("B", s), t["span"]["at"])
             st.append(s)
     return nfa
 
